@@ -1,10 +1,13 @@
 ---------------------------- MODULE MC_LokyExecutor ----------------------------
 EXTENDS LokyExecutor
 Perm == Permutations(Pids)
+K1_ok == [t \in 1..1 |-> "ok"]
 K2_ok == [t \in 1..2 |-> "ok"]
 K2_bad == [t \in 1..2 |-> IF t = 1 THEN "bad_arg" ELSE "ok"]
 K2_crash == [t \in 1..2 |-> IF t = 1 THEN "crash" ELSE "ok"]
 K2_big == [t \in 1..2 |-> IF t = 1 THEN "big" ELSE "ok"]
+K2_huge == [t \in 1..2 |-> IF t = 1 THEN "long" ELSE "huge"]
+K2_okhuge == [t \in 1..2 |-> IF t = 1 THEN "ok" ELSE "huge"]
 K2_long == [t \in 1..2 |-> IF t = 1 THEN "long" ELSE "ok"]
 K3_mix == [t \in 1..3 |-> IF t = 1 THEN "bad_arg" ELSE IF t = 2 THEN "ok" ELSE "big"]
 K2_unload == [t \in 1..2 |-> IF t = 1 THEN "unload" ELSE "ok"]
